@@ -209,10 +209,11 @@ Lemma select_page_indep : forall v q lo n k g, select v q (with_page lo n k) g =
 Proof. intros. reflexivity. Qed.
 
 Theorem page_of_unpaged : forall q lo g l (n : Z) (k : nat), (0 < n)%Z ->
+  (n * Z.of_nat k < 9223372036854775808)%Z ->
   lookup q (unpaged lo) g = LOk l ->
   lookup q (with_page lo n (Z.of_nat k)) g = LOk (firstn (Z.to_nat n) (skipn (Z.to_nat n * k) l)).
 Proof.
-  intros q lo g l n k Hn. unfold lookup, lookup_v.
+  intros q lo g l n k Hn Hb. unfold lookup, lookup_v.
   change (select current q (unpaged lo) g) with (select current q lo g).
   change (select current q (with_page lo n (Z.of_nat k)) g) with (select current q lo g).
   destruct (select current q lo g) as [s|e]; [|discriminate].
@@ -221,13 +222,14 @@ Proof.
 Qed.
 
 Theorem pages_partition : forall q lo g l (n : Z) (K : nat), (0 < n)%Z ->
+  (n * Z.of_nat K < 9223372036854775808)%Z ->
   lookup q (unpaged lo) g = LOk l -> (length l <= Z.to_nat n * K)%nat ->
   concat (map (fun k => results (lookup q (with_page lo n (Z.of_nat k)) g)) (seq 0 K)) = l.
 Proof.
-  intros q lo g l n K Hn Hl Hlen.
-  rewrite (map_ext _ (fun k => firstn (Z.to_nat n) (skipn (Z.to_nat n * k) l))).
+  intros q lo g l n K Hn Hb Hl Hlen.
+  rewrite (map_ext_in _ (fun k => firstn (Z.to_nat n) (skipn (Z.to_nat n * k) l))).
   - now apply blocks_cover.
-  - intros k. now rewrite (page_of_unpaged q lo g l n k Hn Hl).
+  - intros k Hk. apply in_seq in Hk. rewrite (page_of_unpaged q lo g l n k Hn); auto. nia.
 Qed.
 
 Theorem paged_error_iff : forall q lo g n k e,
